@@ -21,6 +21,7 @@ type C01Case struct {
 func genC01(t *rapid.T) C01Case {
 	lim := tierLimits()
 	c := C01Case{Blocks: genHistory(t, lim, true)}
+	addPrunes(t, c.Blocks)
 	nm := rapid.IntRange(2, 3).Draw(t, "nmaps")
 	for i := 0; i < nm; i++ {
 		c.Maps = append(c.Maps, genMapCfg(t, fmt.Sprintf("map%d", i)))
@@ -109,6 +110,24 @@ func (ls *lockstep) step(i int, b Block) error {
 	proof := v.Proof(delH)
 	first := len(ls.f.Hashes)
 	adds, _ := mkLeavesSalt(b.Salt, first, b.Add, func(k int) bool { return inSet(b.Rem, k) })
+	if len(b.Prune) > 0 {
+		for _, s := range b.Prune {
+			if s < 0 || s >= len(ls.f.Dead) || ls.f.Dead[s] {
+				return fmt.Errorf("case error: block %d prunes slot %d which is not live", i, s)
+			}
+		}
+		ph := ls.f.HashesOf(b.Prune)
+		for _, in := range ls.insts {
+			if in.M != nil && !in.M.Full {
+				if err := in.M.Prune(cloneHashes(ph)); err != nil {
+					return fmt.Errorf("block %d: %s: Prune(slots %v) failed: %v", i, in.Cfg, b.Prune, err)
+				}
+				if err := in.checkRoots(v); err != nil {
+					return fmt.Errorf("before block %d, after Prune(slots %v): %v", i, b.Prune, err)
+				}
+			}
+		}
+	}
 	for _, in := range ls.insts {
 		if err := in.Apply(adds, delH, proof); err != nil {
 			return fmt.Errorf("block %d: %s rejected a valid block: %v", i, in.Cfg, err)
